@@ -376,6 +376,13 @@ class FakeProcess:
             self._die(-9)
 
 
+def kill_plain_pid(s, pid):
+    """SIGKILL for an actor group that was not started through FakeProcess (the in-simulation server)."""
+    s.kill_pid(pid)
+    for h in s.registry.get(pid, []):
+        h._owner_died()
+
+
 def _owner_died_conn(self):
     self.closed = True
 
@@ -404,6 +411,8 @@ def _deliver_signal(pid, signum):
     if h == _signal.SIG_IGN or proc.blocks_sigterm:
         return
     proc._die(-signum)
+    if s.me().pid == pid:
+        raise Killed()
 
 
 class _Context:
